@@ -198,6 +198,20 @@ def angvec_cases(ctx):
                         ctx.fail(cid, 'base.angvec2r', 'raises:' + type(Rl).__name__, P, '%r' % (Rl,))
                     elif ref.maxdiff(Rl, R) > TOL:
                         ctx.fail(cid, 'base.angvec2r', 'mismatch', P, 'differs from Rodrigues on the normalised axis by %.3g' % ref.maxdiff(Rl, R))
+                # the class constructors follow the same convention (rotation by theta about the NORMALISED axis) in both units
+                import spatialmath as sm
+                for cn, C_, rot in (('SO3', sm.SO3, lambda o: o.A), ('SE3', sm.SE3, lambda o: o.A[:3, :3]), ('UnitQuaternion', sm.UnitQuaternion, lambda o: ref.q2r(np.asarray(o.vec, dtype=float)))):
+                    for u in ('rad', 'deg'):
+                        cidc = 'C05/%s.AngVec/theta=%s/axis=%s/len=%s/%s' % (cn, tn, xn, ln, u)
+                        if not ctx.want(cidc):
+                            continue
+                        ctx.case(cidc, key=cidc, trivial=(th == 0))
+                        Pc = dict(theta=tn, axis=xn, axislen=ln, unit=u, entry=cn)
+                        okc, o = call(C_.AngVec, th if u == 'rad' else th * 180 / PI, ax * L, unit=u)
+                        if not okc:
+                            ctx.fail(cidc, cn + '.AngVec', 'raises:' + type(o).__name__, Pc, '%r' % (o,))
+                        elif ref.maxdiff(rot(o), R) > TOL:
+                            ctx.fail(cidc, cn + '.AngVec', 'mismatch', Pc, 'differs from the rotation by theta about the normalised axis by %.3g' % ref.maxdiff(rot(o), R))
             for en, f in entries3(R):
                 site = site_of(en, 'angvec')
                 base = 'C05/angvec/theta=%s/axis=%s/%s' % (tn, xn, en)
